@@ -1398,6 +1398,8 @@ func (in *inliner) emitSite0(s *inlSite) (rope, bool) {
 	// result unification: the callee builds its results in locals declared once at the top level
 	// of its body and returns them in a single final return — those locals become the targets
 	var convStmts []ast.Stmt
+	unifiedRes := map[types.Object]bool{}
+	var zeroInit []string
 	if (s.form == formAssign || s.form == formIfInit) && len(body.List) > 0 {
 		if last, ok := body.List[len(body.List)-1].(*ast.ReturnStmt); ok && len(last.Results) == len(lhs) {
 			nret := 0
@@ -1425,6 +1427,58 @@ func (in *inliner) emitSite0(s *inlSite) (rope, bool) {
 					}
 					ro, _ := info.Uses[rid].(*types.Var)
 					if ro == nil || mutatedAddr(info, body, ro) {
+						continue
+					}
+					// a named result: declared by the signature, starts at its zero value
+					isNamedRes := false
+					if ft.Results != nil {
+						for _, f := range ft.Results.List {
+							for _, n := range f.Names {
+								if info.Defs[n] == ro {
+									isNamedRes = true
+								}
+							}
+						}
+					}
+					if isNamedRes {
+						zero := ""
+						if b, ok := ro.Type().Underlying().(*types.Basic); ok {
+							switch {
+							case b.Info()&types.IsNumeric != 0:
+								zero = "0"
+							case b.Info()&types.IsString != 0:
+								zero = `""`
+							case b.Info()&types.IsBoolean != 0:
+								zero = "false"
+							}
+						} else {
+							switch ro.Type().Underlying().(type) {
+							case *types.Pointer, *types.Interface, *types.Map, *types.Slice, *types.Signature, *types.Chan:
+								zero = "nil"
+							}
+						}
+						captured := false
+						ast.Inspect(body, func(m ast.Node) bool {
+							if id, ok := m.(*ast.Ident); ok && info.Defs[id] != nil && id.Name == lhs[j] {
+								if _, renamed := newSubst[info.Defs[id]]; !renamed {
+									captured = true
+								}
+							}
+							return true
+						})
+						for _, b := range binds {
+							if b.name == lhs[j] {
+								captured = true
+							}
+						}
+						if zero == "" || captured {
+							continue
+						}
+						newSubst[ro] = g("%s", lhs[j])
+						unifiedRes[ro] = true
+						if as.Tok != token.DEFINE {
+							zeroInit = append(zeroInit, lhs[j]+" = "+zero)
+						}
 						continue
 					}
 					// its single top-level declaration
@@ -1550,6 +1604,9 @@ func (in *inliner) emitSite0(s *inlSite) (rope, bool) {
 	if ft.Results != nil {
 		for i, f := range ft.Results.List {
 			for _, n := range f.Names {
+				if n.Name != "_" && unifiedRes[info.Defs[n]] {
+					continue
+				}
 				if n.Name != "_" {
 					nm := n.Name
 					if r, ok := newSubst[info.Defs[n]]; ok {
@@ -1562,6 +1619,9 @@ func (in *inliner) emitSite0(s *inlSite) (rope, bool) {
 	}
 	if s.litVar != nil {
 		out = append(out, g("_ = %s\n", s.litVar.Name())...)
+	}
+	for _, z := range zeroInit {
+		out = append(out, g("%s\n", z)...)
 	}
 	if s.form == formReturn {
 		for _, st := range body.List {
